@@ -44,6 +44,9 @@ def one(patch):
             except AnalysisError as e:
                 n += 1
                 out.append(f"FALSE-ALARM(analysis-error) {tag} {owners[rn]} {rn}: {str(e)[:250]}")
+            except Exception as e:       # a crash of the checker: reported like an analysis error, with the patch named
+                n += 1
+                out.append(f"FALSE-ALARM(CRASH) {tag} {owners[rn]} {rn}: {type(e).__name__}: {str(e)[:200]}")
         return patch, out, n
     finally:
         shutil.rmtree(d, ignore_errors=True)
